@@ -1,5 +1,7 @@
 import TangeloModel.Reduce
 import TangeloProofs.Lemmas.SemBasic
+import TangeloProofs.Lemmas.Isometry
+import Mathlib.Algebra.BigOperators.Ring.Finset
 import Mathlib.Algebra.Order.Field.Basic
 import Mathlib.Algebra.Module.Defs
 import Mathlib.Tactic.Ring
@@ -283,6 +285,123 @@ theorem trimTerm_single_reindex (term : List Letter) (q : Nat) (b : Bool) :
   | some l => cases l <;> cases b <;> simp
 
 end trim
+
+/-! ### expectation values: trimming (without re-indexing) leaves every term's expectation value unchanged -/
+section trimexpect
+open Finset
+variable {S : Type} [CommRing S] [StarRing S]
+
+/-- ⟨ψ| P_w |ψ⟩ on an n-qubit register -/
+def expectW (k : Consts S) (n : Nat) (ψ : State S) (w : List Letter) : S :=
+  ∑ i ∈ range (2 ^ n), star (ψ (bitsOf i)) * appWord k w ψ (bitsOf i)
+
+theorem expect_xy_zero (k : Consts S) (n : Nat) (w : List Letter) (ψ : State S) (q : Nat) (b : Bool)
+    (h : HasBit ψ q b) (hf : flipsAt w q = true) : expectW k n ψ w = 0 := by
+  unfold expectW
+  apply Finset.sum_eq_zero
+  intro i _
+  have hP := appWordFrom_hasBit k 0 w ψ q b (Nat.zero_le _) h
+  simp only [Nat.sub_zero, hf, Bool.xor_true] at hP
+  by_cases hx : (bitsOf i) q = b
+  · have : appWord k w ψ (bitsOf i) = 0 := hP _ (by rw [hx]; cases b <;> simp)
+    rw [this, mul_zero]
+  · rw [h _ hx, star_zero, zero_mul]
+
+theorem expect_z_sign (k : Consts S) (n : Nat) (w : List Letter) (ψ : State S) (q : Nat) (b : Bool)
+    (h : HasBit ψ q b) (hz : w[q]? = some .Z) : expectW k n ψ w = zSign b * expectW k n ψ (w.set q .I) := by
+  unfold expectW
+  rw [Finset.mul_sum]
+  apply Finset.sum_congr rfl
+  intro i _
+  rw [word_z_sign k w ψ q b h hz]
+  ring
+
+theorem set_same (w : List Letter) (q : Nat) (h : w[q]? = some .I ∨ w[q]? = none) : w.set q .I = w := by
+  apply List.ext_getElem?
+  intro j
+  by_cases hj : j = q
+  · subst hj
+    rcases h with h | h
+    · have hlt : j < w.length := by
+        by_contra hc
+        rw [List.getElem?_eq_none (by omega)] at h; cases h
+      rw [List.getElem?_set_self hlt, h]
+    · have hge : w.length ≤ j := by
+        by_contra hc
+        rw [List.getElem?_eq_getElem (by omega)] at h; cases h
+      rw [List.getElem?_eq_none (by simpa using hge), List.getElem?_eq_none hge]
+  · rw [List.getElem?_set_ne (fun e => hj e.symm)]
+
+/-- **`trim_trivial_operator` (reindex = False) preserves every expectation value**: for a state whose trimmed
+    qubits are in the recorded basis states (distinct qubits), a term either vanishes — and then its expectation
+    value is 0 — or becomes `sign · term'` with ⟨term⟩ = sign · ⟨term'⟩; for every register size and every state -/
+theorem trimTermFrom_expect (k : Consts S) (n : Nat) (ψ : State S) (term : List Letter) (i : Nat)
+    (rest : List (Nat × Bool)) (sign : Int) (new : List Letter)
+    (hbits : ∀ qb ∈ rest, HasBit ψ qb.1 qb.2) (hnd : (rest.map (·.1)).Nodup)
+    (hagree : ∀ qb ∈ rest, new[qb.1]? = term[qb.1]?)
+    (hinv : expectW k n ψ term = (sign : S) * expectW k n ψ new) :
+    match trimTermFrom term false i rest sign new with
+    | none => expectW k n ψ term = 0
+    | some (s, new') => expectW k n ψ term = (s : S) * expectW k n ψ new' := by
+  induction rest generalizing i sign new with
+  | nil => simpa [trimTermFrom] using hinv
+  | cons qb rest ih =>
+    obtain ⟨q, b⟩ := qb
+    have hq := hbits (q, b) List.mem_cons_self
+    have hag := hagree (q, b) List.mem_cons_self
+    simp only [List.map_cons, List.nodup_cons] at hnd
+    have hrestbits : ∀ qb ∈ rest, HasBit ψ qb.1 qb.2 := fun qb h => hbits qb (List.mem_cons_of_mem _ h)
+    have hrest_ne : ∀ qb ∈ rest, qb.1 ≠ q := fun qb h e => hnd.1 (List.mem_map.mpr ⟨qb, h, e⟩)
+    have hagree' : ∀ qb ∈ rest, (new.set q .I)[qb.1]? = term[qb.1]? := by
+      intro qb h
+      rw [List.getElem?_set_ne (fun e => hrest_ne qb h e.symm)]
+      exact hagree qb (List.mem_cons_of_mem _ h)
+    simp only [trimTermFrom]
+    cases hl : term[q]? with
+    | none =>
+      simp only [Bool.false_eq_true, if_false]
+      have hs : (none : Option Letter) = some .Z ↔ False := by simp
+      simp only [show ((none : Option Letter) = some Letter.Z) = False from by simp, false_and, decide_false,
+        Bool.false_eq_true, if_false]
+      apply ih (i + 1) sign (new.set q .I) hrestbits hnd.2 hagree'
+      rw [set_same new q (Or.inr (by rw [hag, hl]))]; exact hinv
+    | some l =>
+      cases l with
+      | X =>
+        simp only
+        rw [hinv, expect_xy_zero k n new ψ q b hq (by simp [flipsAt, hag, hl]), mul_zero]
+      | Y =>
+        simp only
+        rw [hinv, expect_xy_zero k n new ψ q b hq (by simp [flipsAt, hag, hl]), mul_zero]
+      | I =>
+        simp only [Bool.false_eq_true, if_false]
+        have : (some Letter.I = some Letter.Z) = False := by simp
+        simp only [this, false_and, decide_false, Bool.false_eq_true, if_false]
+        apply ih (i + 1) sign (new.set q .I) hrestbits hnd.2 hagree'
+        rw [set_same new q (Or.inl (by rw [hag, hl]))]; exact hinv
+      | Z =>
+        simp only [Bool.false_eq_true, if_false, true_and]
+        cases b with
+        | false =>
+          try simp only [Bool.false_eq_true, decide_false, if_false]
+          apply ih (i + 1) sign (new.set q .I) hrestbits hnd.2 hagree'
+          rw [hinv, expect_z_sign k n new ψ q false hq (by rw [hag, hl])]
+          simp [zSign]
+        | true =>
+          try simp only [decide_true, if_true]
+          apply ih (i + 1) (-sign) (new.set q .I) hrestbits hnd.2 hagree'
+          rw [hinv, expect_z_sign k n new ψ q true hq (by rw [hag, hl])]
+          simp [zSign]
+
+theorem trimTerm_expect (k : Consts S) (n : Nat) (ψ : State S) (term : List Letter) (states : List (Nat × Bool))
+    (hbits : ∀ qb ∈ states, HasBit ψ qb.1 qb.2) (hnd : (states.map (·.1)).Nodup) :
+    match trimTerm term states false with
+    | none => expectW k n ψ term = 0
+    | some (s, new') => expectW k n ψ term = (s : S) * expectW k n ψ new' := by
+  unfold trimTerm
+  exact trimTermFrom_expect k n ψ term 0 states 1 term hbits hnd (fun _ _ => rfl) (by simp)
+
+end trimexpect
 
 /-! ## truncation: the cumulative-norm loop -/
 section trunc
